@@ -196,6 +196,8 @@ class Ctx:
             elif k in self.obs and isinstance(self.obs[k], list) and isinstance(v, list):
                 # keys starting with "_" are work lists (popped by the check before finishing)
                 self.obs[k] = (self.obs[k] + v) if k.startswith("_") else (self.obs[k] + v)[:64]
+            elif k in self.obs and isinstance(self.obs[k], dict) and isinstance(v, dict):
+                self.obs[k].update(v)
             else:
                 self.obs[k] = v
         for s in p["samples"]:
